@@ -4,4 +4,5 @@ INVARIANT ReadsOnlyAllowed
 INVARIANT ExtraExact
 INVARIANT AliasWins
 INVARIANT SiblingAliasOwn
+INVARIANT InitFalseNeverKey
 INVARIANT EmitInv
